@@ -5,6 +5,8 @@ SPEC = {
         {"comp": "sim_c17", "module": "QV.Sys.MonC17", "quick": 60, "thorough": 1500},
         {"comp": "sim_c17_data", "pymod": "sim_c17", "module": "QV.Sys.MonC01", "quick": 60, "thorough": 1500},
         {"comp": "sim_c17_done", "pymod": "sim_c17", "module": "QV.Sys.MonC02", "quick": 60, "thorough": 1500},
+        # the async API (quinn crate) on the deterministic executor: early handles after a rejection, id reuse
+        {"comp": "sim_c17_async", "module": "QV.Sys.MonC18", "quick": 60, "thorough": 1500},
     ],
     "assumptions": [
         "stream / flow-control part of C17 only (StreamsState); packet-space, TLS acceptance decision, server-side invisibility and early-data buffers are other components",
